@@ -50,8 +50,10 @@ func (p *probe) ToExecutor(_ int) any { return p }
 
 func (p *probe) Apply(inner func(failsafe.Execution[int]) *common.PolicyResult[int]) func(failsafe.Execution[int]) *common.PolicyResult[int] {
 	return func(exec failsafe.Execution[int]) *common.PolicyResult[int] {
+		p.env.obs()
 		app := p.env.recEnter(p.layer, exec)
 		r := inner(exec)
+		p.env.obs()
 		p.env.recExit(p.layer, app, exec, r)
 		if p.layer < len(p.env.Stack) && p.env.Stack[p.layer].Kind == KHedge {
 			p.env.sampleHedgeCancel(p.layer, app)
